@@ -12,13 +12,14 @@ pub fn encode<T: Serialize + ?Sized>(fmt: Fmt, t: &T) -> Result<Vec<u8>, String>
         Fmt::Json => serde_json::to_vec(t).map_err(|e| e.to_string()),
         Fmt::Ron => ron::to_string(t).map(|s| s.into_bytes()).map_err(|e| e.to_string()),
         Fmt::MsgPack => rmp_serde::to_vec(t).map_err(|e| e.to_string()),
+        Fmt::RonNamed => ron::ser::to_string_pretty(t, ron::ser::PrettyConfig::new().struct_names(true).new_line(String::new()).indentor(String::new())).map(|s| s.into_bytes()).map_err(|e| e.to_string()),
     }
 }
 
 pub fn decode<T: DeserializeOwned>(fmt: Fmt, doc: &[u8]) -> Result<T, String> {
     match fmt {
         Fmt::Json => serde_json::from_slice(doc).map_err(|e| e.to_string()),
-        Fmt::Ron => match std::str::from_utf8(doc) {
+        Fmt::Ron | Fmt::RonNamed => match std::str::from_utf8(doc) {
             Ok(s) => ron::from_str(s).map_err(|e| e.to_string()),
             Err(e) => Err(format!("utf8: {e}")),
         },
@@ -410,6 +411,11 @@ pub enum ProbeCall {
 
 pub struct ProbeDe(pub ProbeCall);
 
+thread_local! {
+    /// the newtype name the adversarial deserializer expects in `deserialize_newtype_struct` (None = any)
+    pub static PROBE_EXPECT_NAME: std::cell::Cell<Option<&'static str>> = const { std::cell::Cell::new(None) };
+}
+
 #[derive(Debug)]
 pub struct ProbeErr(pub String);
 impl std::fmt::Display for ProbeErr {
@@ -483,8 +489,19 @@ impl<'de> serde::Deserializer<'de> for ProbeDe {
             ProbeCall::Char(c) => v.visit_char(c),
         }
     }
+    fn deserialize_newtype_struct<V: serde::de::Visitor<'de>>(self, name: &'static str, v: V) -> Result<V::Value, ProbeErr> {
+        // a name-checking format (like RON with struct names) refuses a newtype announced under another name
+        if let ProbeCall::Newtype(_) = &self.0 {
+            if let Some(want) = PROBE_EXPECT_NAME.with(|c| c.get()) {
+                if want != name {
+                    return Err(ProbeErr(format!("expected newtype struct named {want:?}, the visitor asked for {name:?}")));
+                }
+            }
+        }
+        self.deserialize_any(v)
+    }
     serde::forward_to_deserialize_any! {
-        bool i8 i16 i32 i64 i128 u8 u16 u32 u64 u128 f32 f64 char str string bytes byte_buf option unit unit_struct newtype_struct seq tuple tuple_struct map struct enum identifier ignored_any
+        bool i8 i16 i32 i64 i128 u8 u16 u32 u64 u128 f32 f64 char str string bytes byte_buf option unit unit_struct seq tuple tuple_struct map struct enum identifier ignored_any
     }
 }
 
